@@ -121,3 +121,12 @@ REG["C19"] = {
                    "are model-checked and replayed with name, index and list selections under all six axis assignments and anisotropic cells (tolerance 1e-9 max|field|)."),
     "level_note": _NOTE,
 }
+
+REG["C13"] = {
+    "technique": "trace validation with TLC (FsTrace.tla replays recorded audit-hook / fault-injection traces of the real tools through the actions of FsIO.tla, evaluating InputsUntouched, WritesUnderOutput, FailureVisible after every event) + TLC model checking of FsIO.tla's os.path model of every default-output rule (DefaultBeside) and of fault-interrupted write scripts",
+    "level_text": ("Every tool (colander, combine, chef, mandoline array/plotfile/2-D, whip, chk2plt, marinate, read-only taste/pestle/menu/reader) x output form (explicit, default) x path style (relative, absolute, trailing separator; "
+                   "checkpoint names with and without 'chk') is run for real once without fault and once per write point with a persistent ENOSPC injected at that individual open-for-write or write() (quick: all opens + sampled writes; thorough: every point), "
+                   "plus unknown-field and unreadable-input runs; ~900 (quick) recorded runs are validated by TLC."),
+    "level_note": _NOTE + " File-system events are observed with sys.addaudithook and a wrapped open(); paths outside the run's scratch directory are ignored.",
+    "engine": "tlc+trace",
+}
